@@ -477,16 +477,22 @@ class Path:
         if qs:
             # ground instances of the schemas relevant to this query (keeps infeasible paths out)
             insts = instantiate(list(self.pc) + [extra], qs, rounds=2, cap=400)
+        from .ground import _is_ground
         cls_terms = {}
         for t in collect(list(self.pc) + [extra] + insts):
-            if z3.is_app(t) and t.sort() == Cls:
+            # (terms under a native quantifier mention bound variables: they are not ground instances)
+            if z3.is_app(t) and t.sort() == Cls and _is_ground(t):
                 cls_terms[t.get_id()] = t
         if cls_terms:
             insts = insts + class_theory_instances(list(cls_terms.values()))
-        for inst in insts:
-            self.solver.add(inst)
-        r = self.solver.check()
-        self.solver.pop()
+        try:
+            for inst in insts:
+                self.solver.add(inst)
+            r = self.solver.check()
+        except z3.Z3Exception as e:
+            raise Unsupported(f"solver error during path feasibility: {e}") from None
+        finally:
+            self.solver.pop()
         return r != z3.unsat   # unknown counts as feasible (sound: more paths, never fewer)
 
     def branch(self, cond) -> bool:
